@@ -3,6 +3,7 @@ from __future__ import annotations
 
 import array
 import copy
+import pickle
 import io
 
 import bitarray
@@ -49,11 +50,26 @@ def _read_bits(s, tc, tok):
     return (ConstBitStream(s) if tc in (Bits, ConstBitStream) else BitStream(s)).read(len(s))
 
 
+_SUBCLASSES = {}
+
+
+def _subclass(cls):
+    """A user subclass of one of the four classes (made once per class)."""
+    if cls not in _SUBCLASSES:
+        _SUBCLASSES[cls] = globals()['My' + cls.__name__] = type('My' + cls.__name__, (cls,), {'__module__': __name__})   # importable, so that it pickles
+    return _SUBCLASSES[cls]
+
+
 ROUTES = {
     'ctor': lambda s, tc, tok: tc(s),
     'ctor-bits=': lambda s, tc, tok: tc(bits=s),
     'copy.copy': lambda s, tc, tok: copy.copy(s),
     'copy()': lambda s, tc, tok: s.copy(),
+    'copy.deepcopy': lambda s, tc, tok: copy.deepcopy(s),
+    'pickle': lambda s, tc, tok: pickle.loads(pickle.dumps(s)),
+    'deepcopy-in-list': lambda s, tc, tok: copy.deepcopy([s, s])[1],       # the memo makes both items one new object
+    'subclass-ctor': lambda s, tc, tok: _subclass(tc)(s),
+    'subclass-slice': lambda s, tc, tok: _subclass(type(s))(s)[:],
     'slice-full': lambda s, tc, tok: s[:],
     'slice-part': lambda s, tc, tok: s[1:-1],
     'slice-step': lambda s, tc, tok: s[::2],
